@@ -6,6 +6,10 @@ _NOTE = ("Bounded: holds for all values within the bounds recorded in the eviden
 _TECH = "symbolic execution of the real Python code on z3-backed proxy values (BV64/Float64/Real), branch decisions and obligations decided by z3, counterexamples replayed concretely"
 
 CLAIMS = {
+    "C05": {
+        "text": "Bounded symbolic model checking of every real status/ability/names/version/error/timer decoder of both generations, called through the registry and the 0x1F / 0xC0 wrappers with every record byte symbolic (record counts, AT5 strides above the known layout, AT4 ability with/without group bitmap, mixed): every decoded field is shown by z3 to equal the reference reading of the same bits (code tables and formulas from the vendor documents; temperatures as IEEE doubles equal to the correctly rounded quotient), sentinels decode to absent values, undefined codes never decode to a defined value. Three recorded findings (non-optional temperature/set-point fields) are carved out by input region.",
+        "note": _NOTE, "technique": _TECH, "design_ref": "DESIGN.md section 6 C05",
+    },
     "C09": {
         "text": "Bounded symbolic model checking of the real connect()+init() of both generations on a virtual-time loop against a scripted reference console: the silent step (or none), the slot/kind/position of an interleaved extra frame, the connect delay around the 5 s limit, the console's answer delay and (AT4) the group bitmaps are solver-chosen; on every path the six requests must appear in order and one at a time, init must return True with exactly the described ACs/zones/partition, or False at exactly 5 s with initialised false, without exception.",
         "note": _NOTE, "technique": _TECH, "design_ref": "DESIGN.md section 6 C09",
